@@ -1,5 +1,7 @@
 import ScVerif.C09.MachineLemmas
 import ScVerif.C09.SendTimeout
+import ScVerif.C09.MapQueue
+import ScVerif.C09.Pipeline
 /-!
 # C09 — property theorems: lossy delivery preserves the folded view; slow readers never block writers
 
@@ -167,6 +169,80 @@ theorem C09_drop_latest {α : Type} (ms : List (Move α)) :
     rw [drun_append, drun_cons, drun_nil]
     simp [dstep, drecv]
 
+/-- Map + queue fidelity: the goroutine exactly as coded (`MapQueue.lean`: `messages` a map with
+get/set/delete, `queue` a list of ids with PushBack / Front / Remove / remove-first-match, `event()`
+reading `messages[front]` with a zero value for a missing key) gives, for EVERY recv/emit pattern, the
+same answer to every emit as the single-list machine, and its pending changes in queue order are the
+list machine's.  So every theorem about `run` is a theorem about the code's data structure; `zero` is
+arbitrary because it is never read. -/
+theorem C09_map_queue_refines (zero : Change ι μ) (ms : List (Move (Change ι μ))) :
+    (crunOut zero CState.init ms).1 = (runOut MState.init ms).1 ∧
+    (crunOut zero CState.init ms).2.abs = (runOut MState.init ms).2.pending ∧
+    (run Cfg.init ms).emitted = (crunOut zero CState.init ms).1.filterMap id ∧
+    (run Cfg.init ms).st.pending = (crunOut zero CState.init ms).2.abs := by
+  have h := crunOut_refines zero (CState.init : CState ι μ) CInv_init ms
+  have habs : (CState.init : CState ι μ).abs = [] := rfl
+  rw [habs] at h
+  have hs := runOut_spec (MState.init : MState ι μ) [] [] ms
+  refine ⟨h.1, h.2.1, ?_, ?_⟩
+  · rw [h.1]; simpa [Cfg.init, MState.init] using hs.2
+  · rw [h.2.1]
+    have := hs.1
+    simp only [Cfg.init] at this ⊢
+    rw [this]
+    rfl
+
+/-- The three-stage pipeline of a lossy `Collection.Pull` (machine ▸ forwarder holding at most one
+event in hand ▸ consumer; `Pipeline.lean`), for every well-formed input stream and EVERY interleaving
+of recv / take / deliver: everything offered was accepted; what the consumer received, then the event
+in hand, then the pending changes fold to the view of everything received; the DELIVERED stream is a
+well-formed history (old values chain per id); and once nothing is in hand or pending the delivered
+stream folds to the view of everything received — for every id the consumer holds its latest value. -/
+theorem C09_pipeline_view (s0 : View ι μ) (ms : List (PMove (Change ι μ)))
+    (hw : WFHist s0 (pinputs ms)) :
+    let c := prun some PCfg.init ms
+    c.received = pinputs ms ∧
+    fold (c.delivered ++ c.inHand.toList ++ c.st.pending) s0 = fold c.received s0 ∧
+    WFHist s0 c.delivered ∧ WFHist s0 (c.delivered ++ c.inHand.toList ++ c.st.pending) ∧
+    (c.inHand = none → c.st.pending = [] → ∀ i, fold c.delivered s0 i = fold (pinputs ms) s0 i) := by
+  have h := PInv_run (T := some) (s0 := s0) ms (PInv_init some s0) (by simpa [PCfg.init] using hw)
+  have hrec : (prun some (PCfg.init : PCfg ι μ) ms).received = pinputs ms := by
+    simp [prun_received, PCfg.init]
+  have hout := h.out
+  rw [List.filterMap_some] at hout
+  have hview := h.inv.view
+  have hwf := h.inv.wf
+  simp only at hview hwf
+  rw [← hout] at hview hwf
+  refine ⟨hrec, hview, ?_, hwf, ?_⟩
+  · exact (WFHist_append.mp (WFHist_append.mp hwf).1).1
+  · intro hh hp i
+    rw [hh, hp] at hview
+    simp only [Option.toList_none, List.append_nil] at hview
+    rw [hview, hrec]
+
+/-- The lossy `Value.Pull` pipeline (DropExcess slot ▸ forwarder with the `last`-value equivalence
+▸ consumer), for ANY equivalence `E` (any function; `E last v` = "suppress v"), any seed, any message
+type and EVERY interleaving of recv / take / deliver: what the consumer received (then the value in
+hand, then the slot) is a subsequence of what was written, in order; no value is sent that `E` equates
+with the one sent just before it (the seed included); and the most recent write is never lost: it is
+in the slot, or it is the last value sent, or `E` equates the last value sent with it. -/
+theorem C09_value_pipeline {α : Type} (E : Option α → α → Bool) (seed : Option α) (ms : List (PMove α)) :
+    let c := vrun E (VCfg.init seed) ms
+    (c.delivered ++ c.inHand.toList ++ c.slot.toList).Sublist c.received ∧
+    (∀ pre a b post, seed.toList ++ c.delivered ++ c.inHand.toList = pre ++ a :: b :: post →
+        E (some a) b = false) ∧
+    (∀ r, c.received.getLast? = some r →
+        c.slot = some r ∨ (c.slot = none ∧
+          ((c.delivered ++ c.inHand.toList).getLast?.or seed = some r ∨
+           E ((c.delivered ++ c.inHand.toList).getLast?.or seed) r = true))) := by
+  have h := VInv_run (VInv_init E seed) ms
+  refine ⟨h.sub, h.noDup, ?_⟩
+  intro r hr
+  have := h.fresh r hr
+  rw [h.lastSent] at this
+  exact this
+
 /-- Send deadline of `Value.set` (model `ScVerif/C09/SendTimeout.lean`: `Bus.Send` over any list of
 listeners, each `select` taking the earliest ready case): the send never hangs — it is over by the
 deadline; if some listener's receiver never takes the event (backpressure, subscriber not receiving)
@@ -209,6 +285,18 @@ example : (run (Cfg.init : Cfg Nat Nat) [.recv cAdd, .recv cAdd2, .recv cUpd, .r
 /-- The cells "not sure how this happens": what the code does there (outside well-formed streams). -/
 example : mergeChanges cAdd cAdd = some cAdd := by decide
 example : (mergeChanges cUpd cAdd).map (·.kind) = some Kind.replace := by decide
+
+/-- a pipeline run in which the forwarder holds an event in hand while two more merge behind it -/
+example :
+    (fun c : PCfg Nat Nat => (c.delivered.map (·.time), c.inHand.map (·.time), c.st.pending.map (·.time)))
+      (prun some PCfg.init
+        [.recv cAdd, .take, .recv cUpd, .recv cRem, .recv cAdd2, .deliver, .take, .deliver, .take])
+      = ([1, 3], some 4, []) := by
+  decide
+
+/-- the as-coded map+queue machine on a merging run -/
+example : (crunOut cAdd (CState.init : CState Nat Nat)
+      [.recv cAdd, .recv cAdd2, .recv cUpd, .recv cRem, .emit, .emit]).1 = [some cAdd2, none] := by decide
 
 /-- the two hypotheses of `C09_send_timeout` are satisfiable: a never-receiving backpressured listener
 after a lossy one times out at 5000; two ready listeners complete at once -/
